@@ -17,6 +17,12 @@
 //                         method: B (Brute) V (VpTree) C (CoverTree)
 //   G <method> <k>        the same with check_connectivity = true (the search is repeated with 2k, clamped to N-1, until
 //                         the neighbourhood graph is connected); output "G <method> <k> <nrows>" + rows as for F
+//   W <method> <k>        the dispatcher with its exhaustive-search fallback observed: first the raw tree search
+//                         find_neighbors_<method>_impl(begin, end, cb, k) (nothing for B), then find_neighbors(method, ..,
+//                         k, false) with warnings enabled and a counting LoggerImplementation installed (the VP-tree's
+//                         pivot stream is restarted from the same seed before both calls, so both build the same tree).
+//                         The callback may be ANY table here (no metric assumed).
+//   P                     the distance table exactly as the library sees it: cb.distance(begin+i, begin+j) for all i, j
 //   O <k> <row>           the brute-force nth_element ORACLE observed: rebuilds the `distances`
 //                         vector of that row exactly as find_neighbors_bruteforce_impl does (both the
 //                         shipped layout "all samples, position k+1" and the repaired layout "other
@@ -29,6 +35,9 @@
 //   END                   ends the case
 // stdout: "C <n>" (flushed) before each case so that an abort can be attributed, then per command
 //   F: "F <method> <k> <nrows>" then nrows lines "r <i> : j j j ..."
+//   W: "W <method> <k> <warnings logged> <nrows> <nraw>", nrows lines "r <i> : j j .." (the table returned), nraw lines
+//      "w <i> : j j .." (the raw tree table)
+//   P: "P <N>" then N lines "p v v v .." (hex floats)
 //   O: "O <k> <row> S : j j ..." (shipped layout)  and  "O <k> <row> R : j j ..." (repaired layout)
 //   T: "T <k> <nnodes>", "P p p p ..." (pivot offsets drawn, in call order),
 //      nnodes lines "n <item> <thr hexfloat> <hasleft> <hasright>" (preorder), then N lines "s <i> : j j ..."
@@ -154,6 +163,64 @@ template <class CB> static void cmd_find(char method, int k, Samples& s, CB cb, 
     print_rows<CB>("r", nb);
 }
 
+// counts what the library logs (the dispatcher reports a fired fallback at level warning)
+struct CountingLogger : public tapkee::LoggerImplementation
+{
+    long warnings = 0;
+    virtual void message_info(const std::string&) {}
+    virtual void message_warning(const std::string&) { ++warnings; }
+    virtual void message_debug(const std::string&) {}
+    virtual void message_error(const std::string&) {}
+    virtual void message_benchmark(const std::string&) {}
+};
+static CountingLogger* g_logger = NULL;
+
+template <class CB> static void cmd_wrap(char method, int k, Samples& s, CB cb)
+{
+    NeighborsMethod m = Brute;
+    if (method == 'V') m = VpTree;
+    if (method == 'C') m = CoverTree;
+    const unsigned long long seed = 0x9E3779B97F4A7C15ULL + (unsigned long long)k;
+    Neighbors raw;
+    g_rng_state = seed;
+    if (method == 'V') raw = find_neighbors_vptree_impl(s.begin(), s.end(), cb, (IndexType)k);
+    if (method == 'C') raw = find_neighbors_covertree_impl(s.begin(), s.end(), cb, (IndexType)k);
+    g_rng_state = seed;
+    const long before = g_logger ? g_logger->warnings : 0;
+    tapkee::Logging::instance().enable_warning();
+    Neighbors nb;
+    try
+    {
+        nb = find_neighbors(m, s.begin(), s.end(), cb, (IndexType)k, false);
+    }
+    catch (...)
+    {
+        tapkee::Logging::instance().disable_warning();
+        throw;
+    }
+    tapkee::Logging::instance().disable_warning();
+    const long logged = (g_logger ? g_logger->warnings : 0) - before;
+    printf("W %c %d %ld %zu %zu\n", method, k, logged, nb.size(), raw.size());
+    print_rows<CB>("r", nb);
+    for (size_t i = 0; i < raw.size(); i++)
+    {
+        printf("w %zu :", i);
+        for (size_t j = 0; j < raw[i].size(); j++) printf(" %d", (int)raw[i][j]);
+        printf("\n");
+    }
+}
+
+template <class CB> static void cmd_table(Samples& s, CB cb)
+{
+    printf("P %zu\n", s.size());
+    for (It i = s.begin(); i != s.end(); ++i)
+    {
+        printf("p");
+        for (It j = s.begin(); j != s.end(); ++j) printf(" %a", (double)cb.distance(i, j));
+        printf("\n");
+    }
+}
+
 template <class CB> static void cmd_oracle(int k, int row, Samples& s, CB cb)
 {
     typedef std::pair<It, ScalarType> DistanceRecord;
@@ -268,6 +335,17 @@ template <class CB> static void dispatch(const std::string& cmd, std::istringstr
         is >> m >> k;
         cmd_find(m.empty() ? 'B' : m[0], k, s, cb, cmd == "G");
     }
+    else if (cmd == "W")
+    {
+        std::string m;
+        int k;
+        is >> m >> k;
+        cmd_wrap(m.empty() ? 'B' : m[0], k, s, cb);
+    }
+    else if (cmd == "P")
+    {
+        cmd_table(s, cb);
+    }
     else if (cmd == "O")
     {
         int k, row;
@@ -297,6 +375,8 @@ int main()
 {
     tapkee::Logging::instance().disable_info();
     tapkee::Logging::instance().disable_warning();
+    g_logger = new CountingLogger;
+    tapkee::Logging::instance().set_logger_impl(g_logger); // owned (and deleted) by the singleton
     std::string line;
     long ncase = 0;
     int N = 0;
